@@ -118,13 +118,16 @@ def couple_inputs(n, id_sets=None):
         yield numpy.array(ids), numpy.array(ptr)
 
 
-def family_structures(n, max_hh=2):
+ID_LABELLINGS = ([11, 4, 29, 0, 17], [0, 7, 3, 12, 5])
+
+
+def family_structures(n, max_hh=2, ids=None):
     """Typed roles up to isomorphism: each person is an adult (40), a young adult (22) or a child
     (8); symmetric partner matchings among adults / young adults; parent pointers only to strictly
     older roles; <= max_hh households. Yields dicts of arrays (rows in generated order)."""
     ages = {"A": 40, "Y": 22, "C": 8}
     rank = {"A": 2, "Y": 1, "C": 0}
-    ids = [11, 4, 29, 0, 17][:n]
+    ids = (ids or ID_LABELLINGS[0])[:n]
     for roles in itertools.combinations_with_replacement("AYC", n):
         grown = [r for r in range(n) if roles[r] in "AY"]
         for m in matchings(grown):
